@@ -73,20 +73,22 @@ def runInit (body : List InitStmt) (args : List (String × Value)) : List (Strin
         let v : Except PyErr Value :=
           match e with
           | .param n => .ok (arg n)
-          | .tupleOf n =>
+          | .tupleOf n optional =>
             (match arg n with
              | .tuple vs => .ok (.tuple vs)
+             | .none => if optional then .ok .none else .error .TypeError
              | _ => .error .TypeError)
           | .strLit s => .ok (.str (s.toList.map Char.toNat))
           | .pasted t => pastedValue t
+          | .boolLit b => .ok (.bool b)
         match v with
         | .error e => .error e
         | .ok v => go rest (attrs ++ [(a, v)])
-      | .lenOf l o :: rest, attrs =>
+      | .lenOf l o optional :: rest, attrs =>
         let ov : Value := ((attrs.find? (fun p => p.1 == o)).map (fun p => p.2)).getD Value.missing
         match ov.len? with
         | some n => go rest (attrs ++ [(l, Value.int n)])
-        | Option.none => .error .TypeError
+        | Option.none => if optional && ov.isNone then go rest (attrs ++ [(l, Value.none)]) else .error .TypeError
     go body attrs
 
 /-- `Cls(**args)`: keyword-only parameters; required ones must be given, unknown ones are rejected;
